@@ -216,6 +216,28 @@ def _offsets(repo, col):
     R = "R-C12-offsets"
     fi = repo.method("Network", "__init__")
     ex = idx.expander(repo, fi)
+    # branch_edges pairs every branch k that has a parent with that parent: parent = comb_parents[mask], child = where(mask)[0], ONE mask
+    be = [s_ for s_ in ex.stores if s_.kind == "attr" and s_.key.name == "branch_edges"]
+    if be:
+        v = be[-1].value
+        kv = {k.args[0].name: k.args[1] for k in T.find_all(v, lambda x: x.op == "kv") if k.args[0].op == "const"}
+        kv.update({k: t_ for d_ in T.find_all(v, lambda x: x.op == "call" and x.name == "dict") for k, t_ in d_.kw.items()})
+        par, ch = kv.get("parent_branch_index"), kv.get("child_branch_index")
+        if par is None or ch is None:
+            col.unk(R, fi, "branch_edges pairs branch k with comb_parents[k]", f"columns {sorted(kv)}", node=be[-1].node)
+        else:
+            pm = par.args[1] if par.op == "sub" else None
+            w = ch
+            while w is not None and w.op in ("mcall", "call") and w.name in ("asarray", "array", "astype") and w.args:
+                w = next((a_ for a_ in w.args if a_.op != "free"), None)
+            cm = None
+            if w is not None and w.op == "sub" and w.args[1].op == "const" and w.args[1].name == 0 and w.args[0].op == "mcall" and w.args[0].name in ("where", "nonzero"):
+                cm = next((a_ for a_ in w.args[0].args if a_.op != "free"), None)
+            elif w is not None and w.op == "mcall" and w.name == "flatnonzero":
+                cm = next((a_ for a_ in w.args if a_.op != "free"), None)
+            ok = pm is not None and cm is not None and pm.key() == cm.key() and T.find(par.args[0], lambda x: x.op == "attr" and x.name == "comb_parents") is not None
+            col.check(ok, R, fi, "branch_edges pairs branch k with comb_parents[k]", "comb_parents[m], where(m)[0] with one mask m",
+                      f"parent column {par.short(60)}, child column {ch.short(60)}: the k-th row no longer names branch k and its own parent", node=be[-1].node)
     cp = [s for s in ex.stores if s.kind == "attr" and s.key.name == "comb_parents"]
     t = unparse(cp[-1].stmt.value) if cp else ""
     verdict, why = _shifted_parents(repo, fi, cp[-1].value) if cp else ("UNDECIDED", "comb_parents is not stored")
